@@ -402,8 +402,18 @@ func c11Run(c c11Case) (out Outcome) {
 	select {
 	case res = <-doneCh:
 	case <-time.After(20 * time.Second):
-		close(stop)
-		return viol("receive-does-not-terminate", "receive did not return within 20s on a %d byte frame", len(frame))
+		// slow (a loaded machine) or stuck? only a goroutine that keeps running is a finding
+		if spin, stack := spinning("region.VerifReceiveAfter", 40); spin {
+			close(stop)
+			return viol("receive-does-not-terminate", "receive did not return within 20s on a %d byte frame and keeps running:\n%s", len(frame), stack)
+		}
+		select {
+		case res = <-doneCh:
+		case <-time.After(5 * time.Minute):
+			close(stop)
+			out.Labels = append(out.Labels, "inconclusive_receive_slow")
+			return out
+		}
 	}
 	// give drainers a moment to pick up buffered results
 	for i := 0; i < 100; i++ {
